@@ -6,6 +6,8 @@ Bounded-exhaustive exploration of `opticomlib.devices.FBG`:
                     (fs, input length incl. two odd lengths, layout, input field, filtfilt, kL, vdneff, F,
                     apodisation (4 names, their 4 callable twins, 2 seeded smooth positive callables and one
                     asymmetric tilt), specification route {fc, landa_D} x {kL, L, N}).
+* part `corners`  : the 16 corners of (fs, n, vdneff, kL) (4 deviations - not reached by the lattice), uniform/F=0
+                    (quick) and x {uniform, gaussian} x {F=0, F=20} (thorough).
 * part `product`  : (thorough) the full product kL x vdneff x apodisation x F at a sampling rate that
                     resolves the stop band.
 * part `spec`     : all 2^7 presence/absence patterns of {landa_D, fc, kL, L, N, dneff, vdneff} (one
